@@ -353,3 +353,91 @@ def colliding_names_rejected(sx, kind):
     names2 = dict((k, sorted(who(d) for d in descs)) for k, descs in other.interface.service_method_map.items())
     sx.observe('map', names)
     return names == names2
+
+
+# ---------------------------------------------------------------- services stamped out by a factory
+FRAN = []
+
+
+def _factory_service(i, style):
+    # (the internal key suffix is what spyne asks for when one python function is registered more than once)
+    kw = {'_in_message_name': 'op_%d' % i, '_out_message_name': 'op_%dResponse' % i, '_internal_key_suffix': '_%d' % i}
+
+    class Stamped(Service):          # same class name, same module, same function name for every i
+        @rpc(Integer, _returns=Integer, **kw)
+        def op(ctx, a):
+            FRAN.append(i)
+            return i
+    return Stamped
+
+
+@harness('C11', params=['message_names'],
+         functions=['spyne.descriptor.MethodDescriptor.gen_interface_key', 'spyne.interface._base.Interface.process_method'],
+         bounds={'universes': 'three services produced by one factory (same class name, module and python function name) that differ '
+                              'only in the public name of their method; every order of the service list; JSON key, HttpRpc path and '
+                              'XML root tag'})
+def factory_services_dispatch(sx, style):
+    """public names, not python names, identify methods: each of the three names runs exactly the function of its own
+    service, in every order of the service list"""
+    import io
+    import itertools
+    from spyne.server.wsgi import WsgiApplication
+    from spyne.protocol.xml import XmlDocument
+    order = sx.choose('order', list(itertools.permutations(range(3))))
+    which = sx.choose('requested', [0, 1, 2])
+    proto = sx.choose('protocol', ['json', 'http', 'xml'])
+    services = [_factory_service(i, style) for i in order]
+    inp, outp = {'json': (JsonDocument(), JsonDocument()), 'http': (HttpRpc(), JsonDocument()), 'xml': (XmlDocument(), XmlDocument())}[proto]
+    try:
+        app = Application(services, TNS, in_protocol=inp, out_protocol=outp, name='Factory_%s_%s' % (style, ''.join(map(str, order))))
+    except Exception as e:
+        sx.observe('rejected', repr(e)[:80])
+        return False                # the names are distinct: nothing to reject
+    name = 'op_%d' % which
+    body, env = {'json': (('{"%s": {"a": 1}}' % name).encode(), {}),
+                 'http': (b'', {'REQUEST_METHOD': 'GET', 'PATH_INFO': '/' + name, 'QUERY_STRING': 'a=1'}),
+                 'xml': (('<%s xmlns="%s"><a>1</a></%s>' % (name, TNS, name)).encode(), {})}[proto]
+    environ = {'REQUEST_METHOD': 'POST', 'PATH_INFO': '/', 'QUERY_STRING': '', 'SERVER_NAME': 'localhost', 'SERVER_PORT': '80',
+               'wsgi.url_scheme': 'http', 'wsgi.input': io.BytesIO(body), 'CONTENT_LENGTH': str(len(body)), 'CONTENT_TYPE': 'text/plain'}
+    environ.update(env)
+    del FRAN[:]
+    status = []
+    b''.join(WsgiApplication(app)(environ, lambda s, h, e=None: status.append(s)))
+    sx.observe('status', status)
+    sx.observe('ran', list(FRAN))
+    return status[0].startswith('200') and FRAN == [which]
+
+
+# ---------------------------------------------------------------- MessagePackDocument: bytes keys
+from spyne.protocol.msgpack import MessagePackDocument
+from spyne.model.fault import Fault as _Fault
+
+MPAPP = mk(MessagePackDocument(), MessagePackDocument())
+
+
+@harness('C11', functions=['spyne.protocol.msgpack.MessagePackDocument.gen_method_request_string',
+                           'spyne.protocol._base.ProtocolMixin.get_call_handles'],
+         bounds={'key': 'the single key of a MessagePack document as str or bin: every registered name and three near misses, as it is '
+                        'or with stray bytes that are not valid UTF-8 (0xff, 0xc3, 0xfe 0xff) before, after or inside it'})
+def msgpack_document_key(sx, p):
+    """MessagePackDocument: a key that is not exactly a registered name - stray undecodable bytes included - selects nothing"""
+    app = MPAPP
+    prot = app.in_protocol
+    base = sx.choose('name', NAMES + ['nope', 'ge', 'gett'])
+    kind = sx.choose('as', ['str', 'bytes'])
+    stray = sx.choose('stray', [None, b'\xff', b'\xc3', b'\xfe\xff']) if kind == 'bytes' else None
+    key = base.encode('utf8') if kind == 'bytes' else base
+    if stray is not None:
+        at = sx.choose('at', ['before', 'after', 'inside'])
+        key = {'before': stray + key, 'after': key + stray, 'inside': key[:1] + stray + key[1:]}[at]
+    ctx = MethodContext(ServerBase(app), MethodContext.SERVER)
+    ctx.in_document = {key: {}}
+    table = public_names(app)
+    try:
+        prot.decompose_incoming_envelope(ctx, prot.REQUEST)
+        got = sorted(c.descriptor.function.__name__ for c in prot.generate_method_contexts(ctx))
+    except _Fault as e:
+        code = getattr(e, 'faultcode', '')
+        return (stray is not None or ('{%s}%s' % (TNS, base)) not in table) and code.startswith('Client')
+    sx.observe('functions', got)
+    return stray is None and got == table.get('{%s}%s' % (TNS, base))
